@@ -99,14 +99,14 @@ def _user_feat(draw, lat, seqids, names):
     }
 
 
-def _gff_feats(draw, lat, seqids, n):
+def _gff_feats(draw, lat, seqids, n, base=0):
     feats = []
     for i in range(n):
         named = _p(draw, 85)
         f = {
             "seqid": draw(st.sampled_from(seqids)),
             "biotype": draw(st.sampled_from(BIOTYPES)),
-            "name": f"n{i}" if named else None,
+            "name": f"n{base + i}" if named else None,
             "spans": _spans(draw, lat),
             "strand": draw(st.sampled_from(["+", "-", "."])),
             "parent": draw(st.sampled_from([None, None, "n0", "n1", "n0,n1"])),
@@ -280,6 +280,55 @@ def block_cases(draw):
     seqids = SEQIDS[: draw(st.sampled_from([1, 2]))]
     feats, rows = _gff_feats(draw, lat, seqids, draw(st.integers(1, 8)))
     return {"db": {"cls": "gff", "feats": feats, "rows": rows, "user": []}, "lines_per_block": draw(st.integers(1, 6))}
+
+
+LOAD_ROUTES = {
+    "gff": ["glob", "glob", "chain", "chain", "union", "update"],
+    "gb": ["glob", "glob", "chain", "chain", "union", "update", "rich_parser", "collection"],
+}
+TRANSFORMS = ["none", "none", "none", "deepcopy", "pickle", "richdict", "json", "write_reopen"]
+
+
+@st.composite
+def loader_cases(draw):
+    """several flat files (a GenBank file holds 1-3 LOCUS records), loaded together or one after another"""
+    lat = _lattice(draw)
+    seqids = SEQIDS[: draw(st.sampled_from([2, 3, 3]))]
+    kind = draw(st.sampled_from(["gff", "gb"]))
+    route = draw(st.sampled_from(LOAD_ROUTES[kind]))
+    nfiles = 1 if route == "collection" else draw(st.sampled_from([1, 2, 2, 3]))
+    files = []
+    base = 0
+    for _ in range(nfiles):
+        if kind == "gff":
+            n = draw(st.integers(0, 5))
+            feats, rows = _gff_feats(draw, lat, seqids, n, base=base)  # IDs are unique over all files
+            base += n
+            files.append({"feats": feats, "rows": rows})
+        else:
+            loci = draw(st.lists(st.sampled_from(seqids), min_size=1, max_size=len(seqids), unique=True))
+            feats = []
+            for sid in loci:
+                feats.extend(_gb_feats(draw, lat, [sid], draw(st.integers(1, 3))))
+            files.append({"loci": loci, "feats": feats})
+    case = {"kind": kind, "route": route, "files": files, "seqids": None, "lines_per_block": None, "write_path": False, "pre_user": []}
+    by_load_annotations = route in ("glob", "chain", "union", "update")
+    if by_load_annotations and _p(draw, 30 if kind == "gff" else 12):
+        if draw(st.booleans()):
+            case["seqids"] = draw(st.sampled_from(SEQIDS[:4]))
+        else:
+            case["seqids"] = draw(st.lists(st.sampled_from(SEQIDS[:4]), min_size=1, max_size=2, unique=True))
+    if kind == "gff" and _p(draw, 30):
+        case["lines_per_block"] = draw(st.integers(1, 4))
+    if route == "chain" and _p(draw, 30):
+        case["pre_user"] = [_user_feat(draw, lat, seqids, NAMES) for _ in range(draw(st.integers(1, 3)))]
+    elif route in ("glob", "chain") and _p(draw, 20):
+        case["write_path"] = True
+    case["user"] = [_user_feat(draw, lat, seqids, NAMES) for _ in range(draw(st.integers(0, 3)))]
+    case["transform"] = draw(st.sampled_from([x for x in TRANSFORMS if not (case["write_path"] and x in ("richdict", "json"))]))
+    recs = [dict(f, attr=f.get("attr")) for fl in files for f in fl["feats"]] + case["pre_user"] + case["user"]
+    case["queries"] = [{"seqid": x, "allow_partial": False} for x in seqids] + [_query(draw, lat, seqids, recs) for _ in range(4)]
+    return case
 
 
 # =================================================================== model
@@ -508,6 +557,11 @@ class Tmp:
         self.n += 1
         return os.path.join(self.path, f"{self.n}_{name}")
 
+    def dir(self, name):
+        path = self.file(name)
+        os.makedirs(path)
+        return path
+
     def cleanup(self):
         if self.path is not None:
             shutil.rmtree(self.path, ignore_errors=True)
@@ -676,9 +730,18 @@ def _run_queries(s: Soft, case, tmp, dbs):
                 agg[(row["seqid"], row["biotype"])] += int(row["count"])
             s.eq(dict(agg), dict(collections.Counter((r["seqid"], r["biotype"]) for r in model)), "count_distinct", what0)
 
+    nontrivial, evals = run_query_list(s, db, model, case["queries"], known, what0, dbs)
+    # the queried db is unchanged
+    verify_all(s, db, model, "after-queries", known, what0)
+    s.evals = max(1, evals)
+    s.nontrivial = nontrivial
+
+
+def run_query_list(s: Soft, db, model, queries, known, what0, dbs, pre=""):
+    """answers every query by a linear scan of model and compares the four query entry points; (nontrivial, evals)"""
     nontrivial = False
     evals = 0
-    for q in case["queries"]:
+    for q in queries:
         wk = window_kind(q)
         conds = [k for k in ("seqid", "biotype", "name", "strand", "attributes", "on_alignment") if k in q]
         nconds = len(conds) + (wk != "none")
@@ -703,38 +766,35 @@ def _run_queries(s: Soft, case, tmp, dbs):
         kw = query_kwargs(q)
         # --- get_features_matching
         good = True
-        ok, feats = s.call(f"query/get_features_matching{oa}", lambda: list(db.get_features_matching(**kw)))
+        ok, feats = s.call(pre + f"query/get_features_matching{oa}", lambda: list(db.get_features_matching(**kw)))
         if ok:
             evals += 1
-            good = cmp_multiset(s, [obs_feature(f, known) for f in feats], [feat_key(r) for r in must], [feat_key(r) for r in may], f"query/features/window:{wk}", what)
+            good = cmp_multiset(s, [obs_feature(f, known) for f in feats], [feat_key(r) for r in must], [feat_key(r) for r in may], pre + f"query/features/window:{wk}", what)
         # --- get_records_matching (same SQL: one root cause, one signature)
-        ok, rows = s.call(f"query/get_records_matching{oa}", lambda: [dict(r) for r in db.get_records_matching(**kw)])
+        ok, rows = s.call(pre + f"query/get_records_matching{oa}", lambda: [dict(r) for r in db.get_records_matching(**kw)])
         if ok and good:
             evals += 1
-            good = cmp_multiset(s, [obs_record(r, known) for r in rows], [rec_key(r) for r in must], [rec_key(r) for r in may], f"query/records/window:{wk}", what)
+            good = cmp_multiset(s, [obs_record(r, known) for r in rows], [rec_key(r) for r in must], [rec_key(r) for r in may], pre + f"query/records/window:{wk}", what)
         # --- num_matches (no window arguments)
         if wk == "none":
             nkw = {k: v for k, v in q.items() if k != "allow_partial"}
             tag = "/attributes" if "attributes" in q else ""
-            ok, n = s.call(f"query/num_matches{oa}", lambda: db.num_matches(**nkw))
+            ok, n = s.call(pre + f"query/num_matches{oa}", lambda: db.num_matches(**nkw))
             if ok and good:
                 evals += 1
-                s.check(len(must) <= n <= len(must) + len(may), f"query/num_matches{tag}", f"{what}: got {n} want {len(must)}" + (f"..{len(must) + len(may)}" if may else ""))
+                s.check(len(must) <= n <= len(must) + len(may), pre + f"query/num_matches{tag}", f"{what}: got {n} want {len(must)}" + (f"..{len(must) + len(may)}" if may else ""))
         # --- subset (has no on_alignment argument)
         skw = {k: v for k, v in q.items() if k != "on_alignment"}
         smust, smay = select(model, skw)
-        ok, sub = s.call(subset_sig(skw), lambda: db.subset(**skw))
+        ok, sub = s.call(pre + subset_sig(skw), lambda: db.subset(**skw))
         if ok:
             dbs.append(sub)
             evals += 1
-            got = full_content(s, sub, "subset", known)
+            got = full_content(s, sub, pre + "subset", known)
             if got is not None and good:
-                cmp_multiset(s, got, [rec_key(r) for r in smust], [rec_key(r) for r in smay], f"subset/window:{window_kind(skw)}", what)
-            s.check(type(sub) is type(db), "subset/class", f"{what}: {type(sub).__name__}")
-    # the queried db is unchanged
-    verify_all(s, db, model, "after-queries", known, what0)
-    s.evals = max(1, evals)
-    s.nontrivial = nontrivial
+                cmp_multiset(s, got, [rec_key(r) for r in smust], [rec_key(r) for r in smay], pre + f"subset/window:{window_kind(skw)}", what)
+            s.check(type(sub) is type(db), pre + "subset/class", f"{what}: {type(sub).__name__}")
+    return nontrivial, evals
 
 
 # ============================================================== histories
@@ -933,17 +993,209 @@ def exec_blocks(case) -> Soft:
     return s
 
 
+# ================================================================ loaders
+def exec_loaders(case) -> Soft:
+    s = Soft("C17/")
+    tmp, dbs = Tmp(), []
+    try:
+        _run_loaders(s, case, tmp, dbs)
+    finally:
+        close_all(dbs)
+        tmp.cleanup()
+    return s
+
+
+def gb_file_text(fl):
+    return "".join(gb_text(sid, [f for f in fl["feats"] if f["seqid"] == sid]) for sid in fl["loci"])
+
+
+def _run_loaders(s: Soft, case, tmp, dbs):
+    from cogent3.core.annotation_db import BasicAnnotationDb, GenbankAnnotationDb, load_annotations
+
+    kind, route, files = case["kind"], case["route"], case["files"]
+    sq = case["seqids"]
+    keep = None if sq is None else ({sq} if isinstance(sq, str) else set(sq))
+    known = set(NAMES) | {f["name"] for fl in files for f in fl["feats"] if f.get("name")}
+    indir = tmp.dir("in")
+    suffix = "gff" if kind == "gff" else "gb"
+    paths, models = [], []
+    for i, fl in enumerate(files):
+        path = os.path.join(indir, f"f{i}.{suffix}")
+        with open(path, "w") as out:
+            out.write(gff_text(fl) if kind == "gff" else gb_file_text(fl))
+        paths.append(path)
+        recs = gff_records(fl) if kind == "gff" else gb_records(fl)
+        models.append([r for r in recs if keep is None or r["seqid"] in keep])
+    model = [r for m in models for r in m]
+
+    # circumstance tags of the confirmed defects, so that the search continues past them
+    tag = ""
+    if kind == "gb" and route in ("glob", "chain", "union", "update"):
+        multi = any(len(fl["loci"]) > 1 for fl in files)
+        tag = ("/multi-locus-file" if multi else "") + ("/seqids" if keep is not None else "")
+        s.cls("gb:multi-locus-file" if multi else "gb:single-locus-files")
+    if kind == "gff" and route == "glob":
+        idless = [sum(1 for f in fl["feats"] if f["name"] is None and (keep is None or f["seqid"] in keep)) for fl in files]
+        if sum(1 for n in idless if n) >= 2:
+            tag = "/idless-rows-in-several-files"
+            s.cls("gff:idless-rows-in-several-files")
+    # one signature per root cause: the tagged circumstances do not depend on the route
+    pre = f"loaders/{kind}/load_annotations{tag}" if tag else f"loaders/{kind}/{route}"
+    s.cls("kind:" + kind, "route:" + route, f"files:{len(files)}")
+    if keep is not None:
+        s.cls("seqids:" + ("str" if isinstance(sq, str) else "list"))
+
+    kw = {}
+    if keep is not None:
+        kw["seqids"] = sq
+    if case["lines_per_block"] is not None:
+        kw["lines_per_block"] = case["lines_per_block"]
+        s.cls("lines_per_block")
+    wpath = tmp.file("loaded.sqlitedb") if case["write_path"] else None
+
+    seed = seed_model = None
+    db = None
+    if route == "glob":
+        wkw = {} if wpath is None else {"write_path": wpath}
+        ok, db = s.call(pre + "/load", lambda: load_annotations(path=os.path.join(indir, "*." + suffix), **kw, **wkw))
+        if not ok:
+            return
+    elif route == "chain":
+        if case["pre_user"]:
+            ok, seed = s.call("basic/construct", BasicAnnotationDb)
+            if not ok:
+                return
+            dbs.append(seed)
+            for f in case["pre_user"]:
+                if not add_user(s, seed, f, "basic"):
+                    return
+            seed_model = [user_record(f) for f in case["pre_user"]]
+            model = seed_model + model
+            db = seed
+            s.cls("chain:seeded-with-basic-db")
+        for i, path in enumerate(paths):
+            wkw = {"write_path": wpath} if (wpath is not None and i == 0) else {}
+            ok, db = s.call(pre + "/load", lambda: load_annotations(path=path, db=db, **kw, **wkw))
+            if not ok:
+                return
+            if db is not seed:
+                dbs.append(db)
+    elif route in ("union", "update"):
+        parts = []
+        for path in paths:
+            ok, part = s.call(pre + "/load", lambda: load_annotations(path=path, **kw))
+            if not ok:
+                return
+            dbs.append(part)
+            parts.append(part)
+            if not verify_all(s, part, models[len(parts) - 1], pre + "/content", known, f"{kind} db loaded from file {len(parts) - 1} of {len(files)}"):
+                return
+        db = parts[0]
+        for part, pm in zip(parts[1:], models[1:]):
+            if route == "union":
+                ok, db = s.call(pre + "/union", lambda: db.union(part))
+                if not ok:
+                    return
+                dbs.append(db)
+            else:
+                ok, _ = s.call(pre + "/update", lambda: db.update(part))
+                if not ok:
+                    return
+            if not verify_all(s, part, pm, pre + "/argument-changed", known, f"{route} argument"):
+                return
+    elif route == "rich_parser":
+        from cogent3.parse.genbank import rich_parser
+
+        ok, db = s.call("gb/construct", GenbankAnnotationDb)
+        if not ok:
+            return
+        for path in paths:
+            ok, got = s.call(pre + "/load", lambda: [name for name, _ in rich_parser(path, db=db)])
+            if not ok:
+                return
+            s.eq(got, files[paths.index(path)]["loci"], pre + "/locus-names", "names yielded by rich_parser")
+    else:  # the annotation db of a collection loaded from one GenBank file
+        from cogent3 import load_unaligned_seqs
+
+        ok, coll = s.call(pre + "/load", lambda: load_unaligned_seqs(paths[0], moltype="dna"))
+        if not ok:
+            return
+        s.eq(list(coll.names), files[0]["loci"], pre + "/locus-names", "names of the collection")
+        db = coll.annotation_db
+    if db not in dbs:
+        dbs.append(db)
+
+    what0 = f"{kind} db loaded by {route} from {len(files)} files" + (f" seqids={sq}" if keep is not None else "")
+    cls = _cls_of(db)
+    s.eq(cls, kind, pre + "/class", what0)
+    if not verify_all(s, db, model, pre + "/content", known, what0):
+        return
+    if seed is not None:
+        # a db of another class passed as db= is copied, not bound
+        verify_all(s, seed, seed_model, pre + "/seed-changed", known, what0)
+    if wpath is not None:
+        ok, again = s.call(pre + "/write_path/reopen", lambda: type(db)(source=wpath))
+        if ok:
+            dbs.append(again)
+            verify_all(s, again, model, pre + "/write_path/reopen", known, what0)
+    for f in case["user"]:
+        if not add_user(s, db, f, cls):
+            return
+        model = model + [user_record(f)]
+
+    tr = case["transform"]
+    if tr in ("richdict", "json") and wpath is not None:
+        tr = "none"
+    s.cls("transform:" + tr)
+    if tr != "none":
+        cur = db
+        if tr == "deepcopy":
+            fn = lambda: copy.deepcopy(cur)  # noqa: E731
+        elif tr == "pickle":
+            fn = lambda: pickle.loads(pickle.dumps(cur))  # noqa: E731
+        elif tr == "richdict":
+            fn = lambda: type(cur).from_dict(cur.to_rich_dict())  # noqa: E731
+        elif tr == "json":
+
+            def fn():
+                from cogent3.util.deserialise import deserialise_object
+
+                return deserialise_object(cur.to_json())
+
+        else:
+            out = tmp.file("out.sqlitedb")
+
+            def fn():
+                cur.write(out)
+                return type(cur)(source=out)
+
+        ok, db = s.call(f"loaders/{tr}", fn)
+        if not ok:
+            return
+        dbs.append(db)
+        s.eq(_cls_of(db), cls, f"loaders/{tr}/class", what0)
+        if not verify_all(s, db, model, f"loaders/after:{tr}", known, what0):
+            return
+    what0 += f", {len(model)} records" + ("" if tr == "none" else f", after {tr}")
+    _, evals = run_query_list(s, db, model, case["queries"], known, what0, dbs, pre="loaders/")
+    verify_all(s, db, model, "loaders/after-queries", known, what0)
+    s.evals = max(1, evals)
+    several = len(files) >= 2 or (kind == "gb" and any(len(fl["loci"]) > 1 for fl in files))
+    s.nontrivial = several and len({r["seqid"] for r in model if r["table"] != "user"}) >= 2
+
+
 SUBS = [
     Sub("queries", exec_queries, strategy=query_cases(), quick=1500, thorough=240_000, shards_quick=16),
     Sub("histories", exec_history, strategy=history_cases(), quick=400, thorough=48_000, shards_quick=8),
     Sub("gff_blocks", exec_blocks, strategy=block_cases(), quick=200, thorough=16_000, shards_quick=4),
+    Sub("loaders", exec_loaders, strategy=loader_cases(), quick=600, thorough=60_000, shards_quick=8),
 ]
 
 KNOWN_PREDICATES = {}
 
 # thorough tier: coverage-guided campaigns (atheris/libFuzzer mutating the bytes Hypothesis draws from)
 FUZZ = {
-    "subs": ['queries', 'histories', 'gff_blocks'],
+    "subs": ['queries', 'histories', 'gff_blocks', 'loaders'],
     "targets": ['cogent3.core.annotation_db', 'cogent3.parse.gff', 'cogent3.parse.genbank'],
     "execs_thorough": 40_000, "jobs_thorough": 4, "execs_quick": 1000, "jobs_quick": 2,
 }
